@@ -472,6 +472,24 @@ pub async fn cmd_server(args: Vec<String>) -> Result<()> {
     count_panics();
     let env = setup(&args, "server")?;
     install_observer(&env.log);
+    // Whatever makes a scenario impossible to carry on (the server closing this peer's connection, a stream
+    // that cannot be opened any more) is something the server did to a peer that kept to the protocol: it is
+    // recorded and judged, not a failure of the tooling.  The scenarios after it are not run.
+    let runs = match server_scenarios(&env, &args).await {
+        Ok(n) => n,
+        Err(e) => {
+            env.log.emit("harness_error", json!({"err": e.to_string().chars().take(200).collect::<String>(), "fatal": true}));
+            0
+        }
+    };
+    selium_server::verif::set_observer(None);
+    env.log.flush();
+    let _ = std::fs::remove_dir_all(&env.certs);
+    println!("{}", json!({"runs": runs, "events": env.log.lines()}));
+    Ok(())
+}
+
+async fn server_scenarios(env: &Env, args: &[String]) -> Result<usize> {
     let seed: u64 = arg(&args, "--seed").and_then(|s| s.parse().ok()).unwrap_or_else(seed_from_env);
     let cases = read_cases(&arg(&args, "--cases").unwrap());
     let mut client = connect_client(env.server.addr, &env.certs, BackoffStrategy::constant().with_max_attempts(0)).await?;
@@ -667,11 +685,7 @@ pub async fn cmd_server(args: Vec<String>) -> Result<()> {
         };
         env.log.emit("pipeline_round", json!({"pattern": pattern, "res": res}));
     }
-    selium_server::verif::set_observer(None);
-    env.log.flush();
-    let _ = std::fs::remove_dir_all(&env.certs);
-    println!("{}", json!({"runs": cases.len() + rounds as usize + 4, "events": env.log.lines()}));
-    Ok(())
+    Ok(cases.len() + rounds as usize + 4)
 }
 
 /// publish distinguishable payloads on two different names concurrently; every subscriber must see
@@ -843,6 +857,41 @@ pub async fn cmd_stall(args: Vec<String>) -> Result<()> {
             Err(_) => "timeout_30s".to_string(),
         };
         log.emit("other_topic_roundtrip", json!({"res": res3, "ms": t3.elapsed().as_millis() as u64, "who": "connection_of_the_blocked_publisher"}));
+        // ... and for a client of the library that turns up now, while the stalled topic's registration queue is
+        // full: it opens a publisher and a subscriber on the stalled topic (each in a task of its own; the
+        // server acknowledges a registration before it queues it, so both come back) and then uses another
+        // topic through the same Client object -- what is parked behind the stalled topic on the server's
+        // side must not park the client's other streams
+        let client_c = connect_client(env.server.addr, &env.certs, BackoffStrategy::constant().with_max_attempts(0)).await?;
+        let mut late = vec![];
+        for role in ["pub", "sub"] {
+            let (c, t) = (client_c.clone(), topic_a.clone());
+            late.push((role, tokio::spawn(async move {
+                if role == "pub" {
+                    c.publisher(&t).with_encoder(BytesCodec).open().await.map(|p| std::mem::forget(p)).map_err(|e| e.to_string())
+                } else {
+                    c.subscriber(&t).with_decoder(BytesCodec).open().await.map(|s| std::mem::forget(s)).map_err(|e| e.to_string())
+                }
+            })));
+        }
+        tokio::time::sleep(Duration::from_millis(300)).await;
+        let t4 = std::time::Instant::now();
+        let r4 = tokio::time::timeout(Duration::from_secs(30), probe(&client_c, &format!("/vstall{run}/eee"), "pubsub")).await;
+        let res4 = match r4 {
+            Ok(Ok(())) => "ok".to_string(),
+            Ok(Err(e)) => format!("fail: {e}"),
+            Err(_) => "timeout_30s".to_string(),
+        };
+        log.emit("other_topic_roundtrip", json!({"res": res4, "ms": t4.elapsed().as_millis() as u64, "who": "client_with_late_streams_on_the_stalled_topic"}));
+        for (role, h) in late {
+            let r = match tokio::time::timeout(Duration::from_secs(5), h).await {
+                Ok(Ok(Ok(()))) => "ok".to_string(),
+                Ok(Ok(Err(e))) => format!("refused: {e}"),
+                Ok(Err(_)) => "task failed".to_string(),
+                Err(_) => "not_answered".to_string(),
+            };
+            log.emit("late_registration", json!({"role": role, "res": r}));
+        }
         log.emit("done", json!({"panics": PANICS.load(Ordering::SeqCst)}));
         drop(dead_sub);
     }
